@@ -23,6 +23,9 @@ pub struct IssuedCase {
     /// response of the driver's `tree` op for the tree with its disclosure strings
     pub spec: Value,
     pub reference: bool,
+    /// mark id -> the path `Holder::verify` reports for that node's disclosure on the real token (what a holder
+    /// application passes to `redact`); empty when the holder rejects the token
+    pub reported: std::collections::HashMap<usize, String>,
 }
 
 impl IssuedCase {
@@ -40,9 +43,22 @@ impl IssuedCase {
     pub fn spec_disc(&self, id: usize) -> Value {
         self.spec["discs"].as_array().and_then(|a| a.iter().find(|d| d["id"] == json!(id))).cloned().unwrap_or(Value::Null)
     }
-    /// path the holder reports for mark `id` (pointer in the payload)
+    /// path the holder reports for mark `id`: as reported on the real token, else the pointer in the payload
     pub fn holder_path(&self, id: usize) -> String {
-        self.spec_disc(id)["path"].as_str().unwrap_or("").to_string()
+        match self.reported.get(&id) {
+            Some(p) => p.clone(),
+            None => self.spec_disc(id)["path"].as_str().unwrap_or("").to_string(),
+        }
+    }
+    pub fn learn_reported_paths(&mut self) {
+        let dec = keys::dec_key(keys::family(&self.alg), 0);
+        if let Out::Ok((_, _, ps)) = real::holder_verify(&self.token, &dec, &self.validation()) {
+            let by_disc: std::collections::HashMap<String, String> = ps.into_iter().map(|p| (p.disc, p.path)).collect();
+            let ids: Vec<usize> = self.marks.iter().map(|m| m.id).collect();
+            for id in ids {
+                if let Some(p) = by_disc.get(&self.disc_of(id)) { self.reported.insert(id, p.clone()); }
+            }
+        }
     }
 }
 
@@ -174,10 +190,19 @@ pub fn issue_own(ctx: &mut Ctx, case: &Value, entry_prop: &str) -> Option<Issued
             return None;
         }
     };
-    attach_issued(ctx, &mut tree, &order, &payload, &discs);
+    // digests are judged under the algorithm the payload declares (the statements say "the declared _sd_alg")
+    let sd_alg = match crate::tree::declared_sd_alg(&payload) {
+        Some(a) => a,
+        None => {
+            ctx.report.diff("property", "Issuer::encode", "Issuer::encode:_sd_alg-unsupported", case, json!({"_sd_alg": payload.get("_sd_alg")}));
+            return None;
+        }
+    };
+    if sd_alg != "sha-256" { ctx.report.bump(&format!("issued:_sd_alg:{}", sd_alg)); }
+    attach_issued(ctx, &mut tree, &order, &payload, &discs, &sd_alg);
     let marks = tree.marks();
     // the members the issuer adds on request
-    if kb && payload.get("cnf") != Some(&jwk) {
+    if kb && !cnf_is_key(payload.get("cnf"), &jwk) {
         ctx.report.diff("property", "Issuer::encode", "Issuer::encode:cnf-is-not-the-required-key", case,
             json!({"cnf": payload.get("cnf"), "claims_cnf": pre_cnf, "earlier_encodes": reissue}));
     }
@@ -187,8 +212,8 @@ pub fn issue_own(ctx: &mut Ctx, case: &Value, entry_prop: &str) -> Option<Issued
     if exp && !payload.get("exp").map_or(false, |e| e.is_i64() || e.is_u64()) {
         ctx.report.diff("property", "Issuer::encode", "Issuer::encode:exp-missing", case, json!({"exp": payload.get("exp")}));
     }
-    let spec = tree_op(ctx, "sha-256", &tree, None, &[]);
-    Some(IssuedCase { tree, marks, token, jwt, discs, payload, claims, alg, sd_alg: "sha-256".into(), kb, exp, spec, reference: false })
+    let spec = tree_op(ctx, &sd_alg, &tree, None, &[]);
+    Some(IssuedCase { tree, marks, token, jwt, discs, payload, claims, alg, sd_alg, kb, exp, spec, reference: false, reported: Default::default() })
 }
 
 /// Tie the disclosures and digests of an own-issued token to the marked tree: which disclosure hides
@@ -196,8 +221,8 @@ pub fn issue_own(ctx: &mut Ctx, case: &Value, entry_prop: &str) -> Option<Issued
 /// token, and digests of no disclosure are kept as decoys wherever they stand. A node the digests do
 /// not lead to gets the disclosure at its position in the path list, so that the comparison of the
 /// payload with the specified one shows what is wrong.
-pub fn attach_issued(ctx: &mut Ctx, tree: &mut Node, order: &[usize], payload: &Value, discs: &[String]) -> crate::tree::Harvest {
-    let h = tree.harvest(payload, discs);
+pub fn attach_issued(ctx: &mut Ctx, tree: &mut Node, order: &[usize], payload: &Value, discs: &[String], sd_alg: &str) -> crate::tree::Harvest {
+    let h = tree.harvest(payload, discs, sd_alg);
     let un = tree.unassigned();
     let mut positional = h.assigned == 0;
     for (i, id) in order.iter().enumerate() {
@@ -252,11 +277,13 @@ pub fn issue_ref(ctx: &mut Ctx, case: &Value) -> Option<IssuedCase> {
     }
     let token = format!("{}~{}{}", jwt, discs.join("~"), if discs.is_empty() { "" } else { "~" });
     let claims = tree.plain();
-    Some(IssuedCase { tree, marks, token, jwt, discs, payload, claims, alg, sd_alg, kb, exp: false, spec, reference: true })
+    Some(IssuedCase { tree, marks, token, jwt, discs, payload, claims, alg, sd_alg, kb, exp: false, spec, reference: true, reported: Default::default() })
 }
 
 pub fn issue_any(ctx: &mut Ctx, case: &Value) -> Option<IssuedCase> {
-    if case["issuer"] == json!("ref") { issue_ref(ctx, case) } else { issue_own(ctx, case, "") }
+    let mut ic = if case["issuer"] == json!("ref") { issue_ref(ctx, case) } else { issue_own(ctx, case, "") }?;
+    ic.learn_reported_paths();
+    Some(ic)
 }
 
 /// the ids a redaction list leaves visible: path not redacted and no marked ancestor redacted
